@@ -110,5 +110,6 @@ FIXED.append("fixed: property=C13 5a2ec44 a microsecond-precision FHIR dateTime 
 FIXED.append("fixed: property=C18 0ecdb41 patch.Delete(res, 'Patient.contained[0].id'), Replace and Add on elements inside a contained resource returned nil and left the resource unchanged (the evaluator hands out a decoded copy of the packed resource); they now fail with ErrNotPatchable; pointed out by the C18 sub-agent, covered by the new contained-targets sub-space")
 FIXED.append("fixed: property=C18 540625a patch.Delete(bundle, 'Bundle.entry[0].resource.contained[0].name[0]') returned nil without a change (the contained-copy guard looked at the root resource's own contained list only); pointed out by the C18 sub-agent")
 FIXED.append("fixed: property=C01 fcbf6dc a Bundle entry whose ContainedResource wrapper holds no resource made Bundle.entry.resource, Bundle.descendants(), Bundle.entry.children() and every patch operation below it panic (nil dereference in unwrapOneof); pointed out by the C01 sub-agent, covered by the new degenerate-resources sub-space")
+FIXED.append("fixed: property=C09 04cc5a2 `@2019-01-01T00Z + 3000000 hours` gave 1776-09-07T01Z and `@T00 + 3000000 hours` gave T01: an amount of hours / minutes / seconds / milliseconds beyond the 292 years a 64-bit duration holds wrapped around; it now yields empty (overflow); found after large amounts were added to the C09 grid")
 if __name__ == '__main__':
     write()
